@@ -273,6 +273,7 @@ struct ProtoTr {
   }
   static constexpr bool RAW = false;
   static constexpr bool MEM = true;
+  static constexpr bool HAS_EQ = false;
 };
 
 // ---------------------------------------------------------------------------------------------
@@ -761,11 +762,6 @@ void run_typed(vfz::Dec& d, std::string& desc, bool& nt) {
   g_reg = &reg;
   {
     Runner<Tr> r(d, desc);
-    if constexpr (std::is_same<typename Tr::Res, SwissMemoryResource>::value) {
-      // let the thread-local exclusive resources exist before protobuf allocates through the arena view
-      r.res[0].template allocate<1>(1);
-      r.res[1].template allocate<1>(1);
-    }
     r.run();
     nt = r.nt;
     if (!reg.live.empty()) failc("%zu Elem objects are still alive after every vector was destroyed (constructed %ld, destroyed %ld)", reg.live.size(), reg.constructed, reg.destroyed);
